@@ -878,6 +878,11 @@ def builtin_isinstance(it, v, cls):
     }
     if isinstance(v, SV) and v.tag == "exc" and name in ("Exception", "BaseException"):
         return True
+    if str(name).split(".")[-1] == "datetime" and not isinstance(v, Obj):
+        # A-time: an absolute time is an integer tick count tagged as such; relative times are plain integers
+        return isinstance(v, SV) and v.tag == "datetime"
+    if str(name).split(".")[-1] == "timedelta" and not isinstance(v, Obj):
+        return False
     if isinstance(v, Obj) and isinstance(cls, NativeClass):
         return cls in it.mro(v.cls)
     if isinstance(v, SV) and v.kind == "val" and name in table and name != "object":
